@@ -62,7 +62,7 @@ fn ext_space() -> ProgSpace {
     let secp_ok = vector_args("test-secp-verify.txt", "secp256k1_verify", true);
     let secp_r1 = vector_args("test-secp-verify.txt", "secp256r1_verify", true);
     let junk: Vec<T> = vec![nil(), list(&[atom(&[1])]), list(&[atom(&[1; 33]), atom(&[2; 32]), atom(&[3; 64])]), list(&[atom(&[1; 33]), atom(&[2; 32]), atom(&[3; 64]), atom(&[9])])];
-    for op in [vec![0x13u8, 0xd6, 0x1f, 0x00], vec![0x1c, 0x3a, 0x8f, 0x00], vec![0x13, 0xd6, 0x1f, 0x01], vec![0x13, 0xd6, 0x1f, 0x3f], vec![62], vec![63], vec![64], vec![65]] {
+    for op in [vec![0x13u8, 0xd6, 0x1f, 0x00], vec![0x1c, 0x3a, 0x8f, 0x00], vec![0x13, 0xd6, 0x1f, 0x01], vec![0x13, 0xd6, 0x1f, 0x3f], vec![0x13, 0xd6, 0x1f, 0x40], vec![0x13, 0xd6, 0x1f, 0x80], vec![0x13, 0xd6, 0x1f, 0xc0], vec![0x1c, 0x3a, 0x8f, 0x40], vec![0x1c, 0x3a, 0x8f, 0xff], vec![0x13, 0xd6, 0x1e, 0x00], vec![0x00, 0x13, 0xd6, 0x1f, 0x00], vec![62], vec![63], vec![64], vec![65]] {
         for a in secp_ok.iter().chain(secp_r1.iter()).chain(junk.iter()) {
             let mut items = vec![];
             let mut cur = a.clone();
